@@ -38,6 +38,11 @@ def run(ctx):
             t = s[1:1 + rng.randint(1, 2)]
             t = [c for c in t if c in A_T] or [97]
         lines.append("P %s %s" % (bl(s[:4] if len(t) > 0 and rng.random() < 0.5 else s), bl(t)))
+    # every byte value 0..255 (tools/coverage.py: with the small alphabets parse_hexdump never saw most hex digits), and random byte strings
+    for b in range(0, 256, 3):
+        lines.append("P %s %s" % (bl([b, (b + 1) % 256, (b + 2) % 256]), bl([97])))
+    for i in range(100 if quick else 5000):
+        lines.append("P %s %s" % (bl([rng.randrange(256) for _ in range(rng.randint(0, 14))]), bl([rng.choice(A_T)])))
     fields = [list(c) for n in range(0, 3) for c in itertools.product(A_V, repeat=n)]
     vecs = [[]] + [[f] for f in fields] + [list(v) for v in itertools.product(fields[:: (3 if quick else 1)], repeat=2)]
     if not quick:
